@@ -1007,83 +1007,35 @@ func oracle(args []string) {
 	for k, v := range st.paths {
 		sum.Dist["path:"+k] = v
 	}
+	for k, v := range needsOptsVariants {
+		sum.Dist["needs-opts:"+k] = v
+	}
 	put(sum)
 }
 
-// needsOpts turns a generated file into one that is valid only under the option set stored
-// on it: custom trace numbers (not prefixed by the ODFI) or wrong check digits.
+// needsOpts turns a generated file into one that is valid only under the option set stored on
+// it: gen.NeedsOpts, one variant per relaxation flag (the private copy of this command knew custom
+// trace numbers and wrong check digits only).  Left out: CheckTransactionCode (a function is not
+// serialised) and the variants whose damage sits in a batch control record, which FileFromJSON
+// recomputes (the optsdom oracle of C07 states what they are owed).
 func needsOpts(f *ach.File, r *rng.R) (out *ach.File) {
-	defer func() {
-		if recover() != nil {
-			out = nil
-		}
-	}()
-	g := gen.Clone(f)
-	o := &ach.ValidateOpts{}
-	custom := r.Bool()
-	if custom {
-		o.CustomTraceNumbers = true
-	} else {
-		o.AllowInvalidCheckDigit = true
-	}
-	n := r.Range(1000, 5000)
-	for _, b := range g.Batches {
-		if b.GetHeader().StandardEntryClassCode == ach.ADV || b.Category() != ach.CategoryForward {
-			return nil
-		}
-		for _, e := range b.GetEntries() {
-			if custom {
-				n += r.Range(1, 9)
-				e.TraceNumber = fmt.Sprintf("99887766%07d", n)
-			} else {
-				d, _ := strconv.Atoi(e.CheckDigit)
-				e.CheckDigit = strconv.Itoa((d + 1 + r.Intn(8)) % 10)
-			}
+	var vs []*gen.OptVariant
+	for _, v := range gen.OptVariants() {
+		if !v.NoJSON && !v.Stale {
+			vs = append(vs, v)
 		}
 	}
-	// IAT entries too: IATBatch.build keeps foreign trace numbers only under the stored options
-	for i := range g.IATBatches {
-		for _, e := range g.IATBatches[i].GetEntries() {
-			if custom && e.Category == ach.CategoryForward {
-				n += r.Range(1, 9)
-				e.TraceNumber = fmt.Sprintf("99887766%07d", n)
-				// the IAT addenda carry the entry's sequence number (last 7 digits of the trace)
-				seq := n % 10000000
-				setIATAddendaSeq(e, seq)
-			}
+	for i := 0; i < 3; i++ {
+		v := vs[r.Intn(len(vs))]
+		if g := gen.NeedsOptsVariant(r, f, v); g != nil {
+			needsOptsVariants[v.Name]++
+			return g
 		}
 	}
-	applyOpts(g, o)
-	for _, b := range g.Batches {
-		if err := b.Create(); err != nil {
-			return nil
-		}
-	}
-	for i := range g.IATBatches {
-		if err := g.IATBatches[i].Create(); err != nil {
-			return nil
-		}
-	}
-	if err := g.Create(); err != nil {
-		return nil
-	}
-	if err := g.Validate(); err != nil {
-		return nil
-	}
-	// only keep it if the options are really needed
-	h := gen.Clone(g)
-	applyOpts(h, nil)
-	stillValid := true
-	for _, b := range h.Batches {
-		if b.Validate() != nil {
-			stillValid = false
-		}
-	}
-	if stillValid && !custom {
-		return nil
-	}
-	return g
+	return nil
 }
+
+var needsOptsVariants = map[string]int{}
 
 // retabulate re-creates the file under its new options without touching batches that
 // carry OFFSET entries (Batch.Create on those is a C05 matter).
